@@ -923,7 +923,7 @@ func sortDomain(es []mval) bool {
 var keyPool = []string{"", "a", "b", "c", "a.b", "#1", "k\"q", "line\nbreak", "ключ", "😀", strings.Repeat("long", 20), ".", "a#0", " "}
 
 func genKeyFromPool(t *rapid.T) string {
-	if drawInt(t, 0, 9, "freshkey") == 0 {
+	if oneIn(t, 10, "freshkey") {
 		return GenString(t, 5)
 	}
 	return keyPool[drawIdx(t, len(keyPool), "key")]
